@@ -395,6 +395,14 @@ pub fn scenarios(tier: Tier) -> Vec<Scenario> {
                 ],
                 ops: vec![SOp::Poll, SOp::Add { user: 1, disp: 1, blob: Blob::Valid }],
             },
+            Scenario {
+                // the late appointment's penalty is confirmed (by somebody else) in the very block that is being
+                // connected: whichever comes first, the tracker ends up confirmed in that block
+                name: "block-confirming-the-penalty-vs-triggered-add".into(),
+                cfg,
+                seed: vec![Ev::Register(1), Ev::MineP(MineSel::Txs(vec![TxName::D(1)])), Ev::External(TxName::P(1)), Ev::Mine(MineSel::Mempool)],
+                ops: vec![SOp::Poll, SOp::Add { user: 1, disp: 1, blob: Blob::Valid }],
+            },
             // reads of the subscription next to everything that writes it
             Scenario {
                 name: "info-vs-renewal".into(),
